@@ -43,6 +43,8 @@ Ltac jloop_with jp :=
         | eapply l_break; [cbn [incr_of opt_list]; jp|lazy; reflexivity|jp]
         | eapply l_next; [cbn [incr_of opt_list]; jp|lazy; reflexivity|jp|discriminate|jloop_with jp] ].
 
+Ltac subset_tac := let x := fresh "x" in let Hx := fresh "Hx" in intros x Hx; cbn in Hx; repeat (destruct Hx as [<-|Hx]; [in_tac|]); destruct Hx.
+
 Ltac agree_tac :=
   let x := fresh "x" in let Hg := fresh "Hg" in let H := fresh "H" in
   intros x Hg; split; intro H; cbn in H; repeat (destruct H as [<-|H]; [first [discriminate Hg|in_tac]|]); destruct H.
@@ -57,13 +59,23 @@ Ltac scall_tac F jp :=
 Ltac jprogF F :=
   lazymatch goal with
   | |- J _ _ (Prog []) _ _ _ _ => apply j_nil
-  | |- J _ _ (Prog (SAssign _ _ :: _)) _ _ _ _ => eapply j_assign; [reflexivity|side_tac|in_tac|lazy; reflexivity|env_all|jprogF F]
-  | |- J _ _ (Prog (SVarDef _ _ :: _)) _ _ _ _ => eapply j_define; [reflexivity|side_tac|in_tac|lazy; reflexivity|env_all|jprogF F]
+  | |- J _ _ (Prog (SAssign [_] [_] :: _)) _ _ _ _ => eapply j_assign; [reflexivity|side_tac|in_tac|lazy; reflexivity|env_all|jprogF F]
+  | |- J _ _ (Prog (SVarDef [_] [_] :: _)) _ _ _ _ => eapply j_define; [reflexivity|side_tac|in_tac|lazy; reflexivity|env_all|jprogF F]
+  | |- J _ _ (Prog (SAssign _ _ :: _)) _ _ _ _ =>
+      eapply j_assign_multi; [reflexivity|sides_tac|subset_tac|cbn; lia|reflexivity|lazy; reflexivity|cbn [assign_all]; env_all|cbn [assign_all]; jprogF F]
+  | |- J _ _ (Prog (SVarDef _ _ :: _)) _ _ _ _ =>
+      eapply j_define_multi; [reflexivity|sides_tac|subset_tac|cbn; lia|reflexivity|lazy; reflexivity|cbn [assign_all]; env_all|cbn [assign_all]; jprogF F]
   | |- J _ _ (Prog (SPrint _ :: _)) _ _ _ _ => eapply j_print; [reflexivity|sides_tac|lazy; reflexivity|jprogF F]
-  | |- J _ _ (Prog (SVarDefCall _ _ :: _)) _ _ _ _ =>
+  | |- J _ _ (Prog (SVarDefCall [_] (ECall _ [_] _) :: _)) _ _ _ _ =>
       eapply j_call_define; [reflexivity|sides_tac|in_tac|lazy; reflexivity|scall_tac F ltac:(idtac; jprogF F)|env_all|jprogF F]
-  | |- J _ _ (Prog (SAssignCall _ _ :: _)) _ _ _ _ =>
+  | |- J _ _ (Prog (SAssignCall [_] (ECall _ [_] _) :: _)) _ _ _ _ =>
       eapply j_call_assign; [reflexivity|sides_tac|in_tac|lazy; reflexivity|scall_tac F ltac:(idtac; jprogF F)|env_all|jprogF F]
+  | |- J _ _ (Prog (SVarDefCall _ _ :: _)) _ _ _ _ =>
+      eapply j_call_define_multi; [reflexivity|sides_tac|subset_tac|lazy; reflexivity|scall_tac F ltac:(idtac; jprogF F)|reflexivity|reflexivity
+                                  |cbn [assign_all]; env_all|cbn [assign_all]; jprogF F]
+  | |- J _ _ (Prog (SAssignCall _ _ :: _)) _ _ _ _ =>
+      eapply j_call_assign_multi; [reflexivity|sides_tac|subset_tac|lazy; reflexivity|scall_tac F ltac:(idtac; jprogF F)|reflexivity|reflexivity
+                                  |cbn [assign_all]; env_all|cbn [assign_all]; jprogF F]
   | |- J _ _ (Prog (SExpr (ECall _ _ _) :: _)) _ _ _ _ =>
       eapply j_call_stmt; [reflexivity|sides_tac|lazy; reflexivity|scall_tac F ltac:(idtac; jprogF F)|env_all|jprogF F]
   | |- J _ _ (Prog (SBreak :: _)) _ _ _ _ => apply j_break; reflexivity
@@ -113,11 +125,12 @@ Qed.
 
 Lemma fresh3 : fresh_flags 0 0 XS3 b_init.
 Proof.
-  split; [|split; [|split]].
+  split; [|split; [|split; [|split]]].
   - intros x k Hx. cbn in Hx. repeat (destruct Hx as [<-|Hx]; [names_tac|]). destruct Hx.
   - intros x i Hx. cbn in Hx. repeat (destruct Hx as [<-|Hx]; [names_tac|]). destruct Hx.
   - apply le_n.
   - intros x c y _ Hc. inversion Hc.
+  - intros x i Hx. cbn in Hx. repeat (destruct Hx as [<-|Hx]; [names_tac|]). destruct Hx.
 Qed.
 
 Lemma loop_sample_derivation :
@@ -180,11 +193,12 @@ Proof.
   { intros y z Hy Hz. cbn in Hy, Hz.
     repeat (destruct Hy as [<-|Hy]; [repeat (destruct Hz as [<-|Hz]; [first [intros _; reflexivity|names_tac]|]); destruct Hz|]). destruct Hy. }
   split.
-  { split; [|split; [|split]].
+  { split; [|split; [|split; [|split]]].
     - intros x k Hx. cases_in Hx ltac:(names_tac).
     - intros x i Hx. cases_in Hx ltac:(names_tac).
     - apply le_n.
-    - intros x c y Hx Hc. assert (c = 0%nat) as -> by (vm_compute in Hc; lia). cases_in Hx ltac:(names_tac). }
+    - intros x c y Hx Hc. assert (c = 0%nat) as -> by (vm_compute in Hc; lia). cases_in Hx ltac:(names_tac).
+    - intros x i Hx. cases_in Hx ltac:(names_tac). }
   split; [intros p Hp; cases_in Hp ltac:(split; [reflexivity|in_tac])|].
   split; [vm_compute; reflexivity|]. split; [reflexivity|]. split; [vm_compute; reflexivity|]. split; [reflexivity|].
   split; [sides_tac|].
@@ -203,11 +217,12 @@ Qed.
 
 Lemma fresh_main : fresh_flags 0 2 XS_main s_main.
 Proof.
-  split; [|split; [|split]].
+  split; [|split; [|split; [|split]]].
   - intros x k Hx. cases_in Hx ltac:(names_tac).
   - intros x i Hx. cases_in Hx ltac:(names_tac).
   - apply le_n.
   - intros x c y Hx _. cases_in Hx ltac:(names_tac).
+  - intros x i Hx. cases_in Hx ltac:(names_tac).
 Qed.
 
 Lemma call_sample_derivation :
@@ -224,5 +239,84 @@ Proof.
   assert (forall F, In F [F_add] -> fun_ok script_add F) as Hok by (intros F [<-|[]]; exact add_fun_ok).
   destruct (calls_preserved [F_add] script_add 1 0 2 [] Hok XS_main sg_empty main_add sgF _ s_main tt s_end [] HJ
               ltac:(vm_compute; reflexivity) eq_refl ltac:(intros y w H; discriminate H) ctx_main fresh_main) as (X & b' & Hx & Hrun & _).
+  exists X, b'. split; [exact Hx|exact Hrun].
+Qed.
+
+(* ---- simultaneous assignment and a function with two results ----
+   func divmod(a int, b int) (int, int) { return a / b, a % b }
+   x := 17; y := 5; x, y = y, x; q, r := divmod(x, y); print(x, y, q, r) *)
+Definition gx : var := mkVar (bs "x") (T DInt) true false.
+Definition gy2 : var := mkVar (bs "y") (T DInt) true false.
+Definition gq : var := mkVar (bs "q") (T DInt) true false.
+Definition gr : var := mkVar (bs "r") (T DInt) true false.
+Definition dm_rets : list expr := [EBinary (EVar pa) OpDiv (EVar pb); EBinary (EVar pa) OpMod (EVar pb)].
+Definition dm_def : stmt := SFunc (bs "divmod") [T DInt; T DInt] [pa; pb] ([] ++ [SReturn dm_rets]) false.
+Definition main_dm : list stmt :=
+  [SVarDef [gx] [EInt 17]; SVarDef [gy2] [EInt 5];
+   SAssign [gx; gy2] [EVar gy2; EVar gx];
+   SVarDefCall [gq; gr] (ECall (bs "divmod") [T DInt; T DInt] [EVar gx; EVar gy2]);
+   SPrint [EVar gx; EVar gy2; EVar gq; EVar gr]].
+Definition s_dm_f : bstate := cv_func_start bstate atom bash_conv (bs "divmod") [bs "a"; bs "b"] [T DInt; T DInt] b_init.
+Definition s_dm_r : bstate := st_of (t_stmt bash_conv (SReturn dm_rets) s_dm_f).
+Definition s_dm_main : bstate := st_of (t_stmt bash_conv dm_def b_init).
+Definition s_dm_end : bstate := st_of (go_fix main_dm s_dm_main).
+Definition script_dm : list line := b_code s_dm_end.
+Definition XSf_dm : list var := [gx; gy2; gq; gr; pa; pb].
+Definition XS_dm : list var := [gx; gy2; gq; gr].
+Definition F_dm : fdef := mkFdef (bs "divmod") [pa; pb] [] dm_rets XSf_dm s_dm_f s_dm_f s_dm_r.
+
+Lemma dm_fun_ok : fun_ok script_dm F_dm.
+Proof.
+  unfold fun_ok. cbn [F_dm fd_sf fd_sb fd_sr fd_vars fd_params fd_body fd_rets fd_name].
+  split; [vm_compute; lia|].
+  split; [intros x Hx; cases_in Hx ltac:(reflexivity)|].
+  split; [intros x k Hx; cases_in Hx ltac:(names_tac)|].
+  split.
+  { intros y z Hy Hz. cbn in Hy, Hz.
+    repeat (destruct Hy as [<-|Hy]; [repeat (destruct Hz as [<-|Hz]; [first [intros _; reflexivity|names_tac]|]); destruct Hz|]). destruct Hy. }
+  split.
+  { split; [|split; [|split; [|split]]].
+    - intros x k Hx. cases_in Hx ltac:(names_tac).
+    - intros x i Hx. cases_in Hx ltac:(names_tac).
+    - apply le_n.
+    - intros x c y Hx Hc. assert (c = 0%nat) as -> by (vm_compute in Hc; lia). cases_in Hx ltac:(names_tac).
+    - intros x i Hx. cases_in Hx ltac:(names_tac). }
+  split; [intros p Hp; cases_in Hp ltac:(split; [reflexivity|in_tac])|].
+  split; [reflexivity|]. split; [reflexivity|]. split; [vm_compute; reflexivity|]. split; [reflexivity|].
+  split; [sides_tac|].
+  eexists. eexists. split; vm_compute; reflexivity.
+Qed.
+
+Lemma ctx_dm : ctx_ok XS_dm sg_empty [] s_dm_main.
+Proof.
+  constructor.
+  - intros x Hx. cases_in Hx ltac:(reflexivity).
+  - intros x v _ Hv. discriminate Hv.
+  - intros x k Hx. cases_in Hx ltac:(names_tac).
+  - intros y z Hy Hz. cbn in Hy, Hz.
+    repeat (destruct Hy as [<-|Hy]; [repeat (destruct Hz as [<-|Hz]; [first [intros _; reflexivity|names_tac]|]); destruct Hz|]). destruct Hy.
+Qed.
+
+Lemma fresh_dm : fresh_flags 0 2 XS_dm s_dm_main.
+Proof.
+  split; [|split; [|split; [|split]]].
+  - intros x k Hx. cases_in Hx ltac:(names_tac).
+  - intros x i Hx. cases_in Hx ltac:(names_tac).
+  - apply le_n.
+  - intros x c y Hx _. cases_in Hx ltac:(names_tac).
+  - intros x i Hx. cases_in Hx ltac:(names_tac).
+Qed.
+
+Lemma swap_sample_derivation :
+  exists sgF out, J (scall_at [F_dm] 1 0 2) XS_dm (Prog main_dm) sg_empty sgF out SN /\ out = bs "5 17 0 5" ++ [10].
+Proof. eexists. eexists. split; [unfold main_dm; jprogF F_dm|vm_compute; reflexivity]. Qed.
+
+Lemma swap_sample_applies :
+  exists X b', b_code s_dm_end = b_code s_dm_main ++ X /\ lruns (call_of script_dm 1) [] [] [] X (b', bs "5 17 0 5" ++ [10]).
+Proof.
+  destruct swap_sample_derivation as (sgF & out & HJ & ->).
+  assert (forall F, In F [F_dm] -> fun_ok script_dm F) as Hok by (intros F [<-|[]]; exact dm_fun_ok).
+  destruct (calls_preserved [F_dm] script_dm 1 0 2 [] Hok XS_dm sg_empty main_dm sgF _ s_dm_main tt s_dm_end [] HJ
+              ltac:(vm_compute; reflexivity) eq_refl ltac:(intros y w H; discriminate H) ctx_dm fresh_dm) as (X & b' & Hx & Hrun & _).
   exists X, b'. split; [exact Hx|exact Hrun].
 Qed.
